@@ -606,3 +606,6 @@ def run(S):
     rule_pub(S)
     from checks import C14
     C14.rule_lve(S)
+    # mechanisms this property rests on (checks/shared.py)
+    from checks import shared
+    shared.sessions(S)
